@@ -345,7 +345,7 @@ func Check() *common.Check {
 		// every case is recorded before it runs: a fatal error or a hang of the worker is attributed to it
 		CrashSafe: true,
 		Rule: "(S) every struct type of pkg/sql/ast with a Children method (listed from the current source by tools/astreg) x every exported field that can hold a node, " +
-			"populated alone with uniquely tagged content to depth 2, slices with 2 and 3 elements and rows of nested slices with lengths (2,2), (1,3), (3,1); (S2) every interface-typed node position (field or slice element) x every concrete node type assignable to it; (T) every tree of the sqlgen statement space (quick: without 3/4-operator shapes) " +
+			"populated alone with uniquely tagged content to depth 2, slices with 2 and 3 elements and rows of nested slices with lengths (2,2), (1,3), (3,1); (S2) every interface-typed node position (field or slice element) x every concrete node type assignable to it; (S4) every field of a named integer type (a discriminator) x values 1..15 x every node-holding field populated alone; (T) every tree of the sqlgen statement space (quick: without 3/4-operator shapes) " +
 			"every .sql file under /repo/testdata the parser accepts, (H) every ordered pair of representative expression statements as parse / release / parse in one process (the second tree is built from recycled nodes), and left-deep operator / UNION chains of every length 2..40, around 64..1024 and a ladder up to 1200 operands. Oracle on each root: multiset of nodes seen by ast.Inspect == multiset of node-typed values reachable by reflection. " +
 			"distinct = distinct (type,field) obligations and distinct SQL texts; non-trivial = the root has at least 3 reachable nodes",
 		Assume: []string{"a node is identified by its type and canonical dump (Children() hands out copies of value-typed elements)",
@@ -389,6 +389,46 @@ func Check() *common.Check {
 						c.Outcome("structural")
 						c.NonTrivial()
 					})
+				}
+			}
+			// (S4) a node type with a discriminator (a field of a named integer type: operation kind, join kind ...) x every
+			// value 0..15 of it x every node-holding field populated alone: which child fields a traversal yields must not
+			// hinge on the discriminator (the parser fills fields by its own rules, not by the field comments)
+			for _, proto := range NodeTypes {
+				st := reflect.TypeOf(proto).Elem()
+				var discs []int
+				for i := 0; i < st.NumField(); i++ {
+					f := st.Field(i)
+					if f.PkgPath == "" && f.Type.PkgPath() != "" && f.Type.Name() != "" && (f.Type.Kind() >= reflect.Int && f.Type.Kind() <= reflect.Uint64) {
+						discs = append(discs, i)
+					}
+				}
+				for _, di := range discs {
+					for i := 0; i < st.NumField(); i++ {
+						f := st.Field(i)
+						if f.PkgPath != "" || !canHoldNode(f.Type, 0) {
+							continue
+						}
+						for v := 1; v <= 15; v++ {
+							di, i, v := di, i, v
+							key := fmt.Sprintf("S4/%s.%s=%d/%s", st.Name(), st.Field(di).Name, v, f.Name)
+							e.Do(key, func(c *common.Ctx) {
+								root := reflect.New(st)
+								df := root.Elem().Field(di)
+								if df.Kind() >= reflect.Uint && df.Kind() <= reflect.Uint64 {
+									df.SetUint(uint64(v))
+								} else {
+									df.SetInt(int64(v))
+								}
+								root.Elem().Field(i).Set(fill(st.Field(i).Type, 2))
+								n := root.Interface().(ast.Node)
+								c.Input(key + " = " + common.Trim(sqlgen.Dump(n), 600))
+								compare(c, n)
+								c.Outcome("structural-discriminator")
+								c.NonTrivial()
+							})
+						}
+					}
 				}
 			}
 			// (S2) every interface-typed node position x every concrete node type that can be stored there: a traversal
